@@ -44,7 +44,7 @@ plan("C03", "exploration",
      {"quick": {"leader-completeness-checked": 100}, "thorough": {"leader-completeness-checked": 750}})
 plan("C08", "exploration",
      [sim("clients", 36), sim("random", 14), sim("cfgquorum", 6), sim("fig8x", 4)],
-     [sim("clients", 300), sim("random", 130), sim("fig8", 70), sim("cfgquorum", 40), sim("fig8x", 40), sim("storefail", 60), sim("clients", 60, race=True)],
+     [sim("clients", 300), sim("random", 130), sim("fig8", 70), sim("cfgquorum", 40), sim("fig8x", 40), sim("storefail", 60), sim("deposeae", 40), sim("clients", 60, race=True)],
      {"call-ok:apply": 10}, "at least 10 acknowledged Apply calls",
      {"quick": {"call-ok:apply": 2000, "definite-failure": 50, "porcupine-ok": 30}, "thorough": {"porcupine-ok": 200}})
 plan("C09", "exploration",
@@ -73,8 +73,8 @@ plan("C14", "exploration",
      {"pv-isolation-completed": 1}, "a pre-vote enabled server was isolated and reconnected",
      {"quick": {"pv-isolation-completed": 40, "pv-reconnect-checked": 15}, "thorough": {"pv-isolation-completed": 250}})
 plan("C17", "exploration",
-     [sim("shutdown", 28), sim("random", 8), sim("restore", 16), sim("promote", 8)],
-     [sim("shutdown", 270), sim("random", 100), sim("churn", 100), sim("clients", 70), sim("restore", 100), sim("promote", 80)],
+     [sim("shutdown", 26), sim("random", 8), sim("restore", 12), sim("promote", 8), sim("deposeae", 8)],
+     [sim("shutdown", 270), sim("random", 100), sim("churn", 100), sim("clients", 70), sim("restore", 100), sim("promote", 80), sim("deposeae", 60)],
      {"call:apply": 10}, "client futures were observed (and, for the shutdown family, calls raced with and followed Shutdown)",
      {"quick": {"after-shutdown-call": 100}, "thorough": {"after-shutdown-call": 500}})
 plan("C18", "exploration",
